@@ -45,7 +45,7 @@ ASSUMPTIONS = [
 
 def plan(tier: str) -> dict:
     if tier == "quick":
-        return {"runs": 260, "wall_s": 170, "task_timeout": 400}
+        return {"runs": 800, "wall_s": 170, "task_timeout": 400}
     return {"runs": 5000, "wall_s": 1700, "task_timeout": 1200}
 
 
